@@ -122,7 +122,7 @@ FirstForm(s, cx) ==
        [] k = 2 -> SeqE(<<Not(SeqE(<<d, Chr(cx.alpha[1])>>)), Dot>>)
        [] k = 3 -> SeqE(<<d, Opt(d)>>))
   ELSE
-  LET k == Pick(s, 60, 18)
+  LET k == Pick(s, 60, 20)
       a == ConsAtom(H(s, 61), cx)
       b == ConsAtom(H(s, 62), cx)
       c == ConsAtom(H(s, 63), cx)
@@ -140,6 +140,9 @@ FirstForm(s, cx) ==
        [] k = 15 -> SeqE(<<Opt(SeqE(<<a, b>>)), c>>)
        [] k = 16 -> SeqE(<<Star(SeqE(<<a, Opt(b)>>)), c>>)
        [] k = 17 -> AltE(<<a, b, c>>)
+       \* a guard that looks further ahead than one character: it also holds on a character its operand starts with
+       [] k = 18 -> SeqE(<<Not(Str(<<cx.alpha[1 + Pick(s, 64, Len(cx.alpha))], cx.alpha[1 + Pick(s, 65, Len(cx.alpha))]>>, FALSE)), Dot>>)
+       [] k = 19 -> SeqE(<<And(SeqE(<<a, b>>)), Dot>>)
 SwitchAlt(s, cx) ==
   LET f == IF cx.self = 5 THEN Ref(IF Pick(s, 68, 2) = 0 THEN "A" ELSE "B") ELSE FirstForm(s, cx)
       k == IF cx.self = 5 THEN 2 + 3 * Pick(s, 64, 2) ELSE IF cx.self = 2 /\ Pick(s, 69, 2) = 0 THEN 6 ELSE Pick(s, 64, 8)
@@ -175,8 +178,46 @@ RecSkeleton(s, cx) ==
                   [name |-> "D", body |-> AltE(dAlts)] >>
   IN NumberActions([rules |-> rules])
 
+\* mutual recursion in which a rule (X) is first analysed while the rule it starts with (A) is still in
+\* progress, and is itself in progress when a choice that starts with it (in Z) is analysed:
+\*    A <- x X .. / b ;  X <- A k Z .. ;  Z <- [p-q] .. / X m .. / r ..      (alternatives of Z in any order)
+\* First(X) = {x, b}; an analysis that answers for X with what an earlier, incomplete pass saw ({k}) selects the
+\* alternative "X m" by the wrong character
+RecSkeleton2(s, cx) ==
+  LET a == cx.alpha
+      sw == Pick(s, 1, 2)
+      x == a[1 + sw] b == a[2 - sw] k == a[3]
+      m == a[1 + Pick(s, 2, Len(a))]
+      tail(j) == IF Pick(s, 10 + j, 3) = 0 THEN <<Act(0)>> ELSE <<>>
+      wrap(e, j) == IF Pick(s, 20 + j, 3) = 0 THEN Cap(e) ELSE e
+      zAlts == <<SeqE(<<wrap(Rng(a[4], a[5]), 1)>> \o tail(1)), SeqE(<<Ref("X"), Chr(m)>> \o tail(2)), SeqE(<<wrap(Chr(a[6]), 3)>> \o tail(3))>>
+      perm == <<<<1, 2, 3>>, <<1, 3, 2>>, <<2, 1, 3>>, <<2, 3, 1>>, <<3, 1, 2>>, <<3, 2, 1>>>>[1 + Pick(s, 3, 6)]
+      rules == << [name |-> "A", body |-> AltE(<<SeqE(<<Chr(x), Ref("X")>> \o tail(4)), wrap(Chr(b), 5)>>)],
+                  [name |-> "X", body |-> SeqE(<<Ref("A"), Chr(k), Ref("Z")>> \o tail(6))],
+                  [name |-> "Z", body |-> AltE([j \in 1..3 |-> zAlts[perm[j]]])] >>
+  IN NumberActions([rules |-> rules])
+
+\* delimiters of two characters and a guarded "anything else":  A <- (p1 / p2 / !(p1 / p2) .)+ !.
+\* the guard also holds on a first character of a delimiter that is not followed by its second character
+GuardSkeleton(s, cx) ==
+  LET a == cx.alpha
+      o == Pick(s, 1, Len(a))
+      c(i) == a[1 + ((o + i) % Len(a))]
+      d(i) == a[1 + Pick(s, 1 + i, Len(a))]
+      p(i) == IF Pick(s, 10 + i, 2) = 0 THEN Str(<<c(i), d(i)>>, FALSE) ELSE SeqE(<<Chr(c(i)), Cap(Chr(d(i)))>>)
+      np == 2 + Pick(s, 5, 2)
+      ps == [i \in 1..np |-> p(i)]
+      viaRule == Pick(s, 6, 2) = 0
+      guard == SeqE(<<Not(IF viaRule THEN Ref("D") ELSE AltE(ps)), IF Pick(s, 7, 2) = 0 THEN Dot ELSE Cap(Dot)>>)
+      alts == IF Pick(s, 8, 2) = 0 THEN Append(ps, guard) ELSE <<guard>> \o ps
+      body == IF Pick(s, 9, 2) = 0 THEN SeqE(<<Plus(AltE(alts)), Not(Dot)>>) ELSE AltE(alts)
+      rules == <<[name |-> "A", body |-> body]>> \o (IF viaRule THEN <<[name |-> "D", body |-> AltE(ps)]>> ELSE <<>>)
+  IN NumberActions([rules |-> rules])
+
 GenSwitch(s, cx) ==
   IF Pick(s, 98, 4) = 0 THEN RecSkeleton(H(s, 97), cx) ELSE
+  IF Pick(s, 98, 4) = 1 /\ Pick(s, 96, 2) = 0 THEN RecSkeleton2(H(s, 95), cx) ELSE
+  IF Pick(s, 98, 4) = 1 /\ Pick(s, 96, 2) = 1 /\ Pick(s, 94, 2) = 0 THEN GuardSkeleton(H(s, 93), cx) ELSE
   LET n == 3 + Pick(s, 70, 3)
       alt == AltE([i \in 1..n |-> SwitchAlt(H(s, 71 + i), cx)])
       k == Pick(s, 80, 6)
@@ -193,6 +234,33 @@ GenSwitch(s, cx) ==
                   [name |-> "D", body |-> LET nd == 3 + Pick(s, 93, 2) rec == 1 + Pick(s, 99, nd) IN
                                           AltE([i \in 1..nd |-> SwitchAlt(H(s, 94 + i), [cx EXCEPT !.n = 1, !.self = IF i = rec THEN 5 ELSE 4])])] >>
   IN NumberActions(Prune([rules |-> rules]))
+
+(* ---------- the "lex" shape: literals and classes whose spelling matters ------------------- *)
+\* Grammars made of multi-character literals and classes over quotes, digits, '-', ']', '\', a newline and
+\* non-ASCII characters, rendered with the escape styles of the syntax family (named, octal, short octal, hex):
+\* what the front end makes of the spelling is observed end to end, as the language of the generated parser.
+LexAlpha == <<97, 55, 52, 48, 39, 34, 45, 93, 92, 10, 233, 319, 1114111>>
+LexAtom(s, cx) ==
+  LET a == cx.alpha
+      ch(j) == a[1 + Pick(s, 10 + j, Len(a))]
+      k == Pick(s, 1, 9)
+      item(j) == IF Pick(s, 30 + j, 2) = 0 THEN Single(ch(j))
+                 ELSE LET x == ch(j) y == ch(j + 4) IN Item(IF x <= y THEN x ELSE y, IF x <= y THEN y ELSE x)
+  IN CASE k \in 0..3 -> Str([j \in 1..(2 + Pick(s, 2, 3)) |-> ch(j)], FALSE)
+       [] k = 4 -> Chr(ch(1))
+       [] k \in 5..6 -> Cls([j \in 1..(1 + Pick(s, 3, 3)) |-> item(j)], Pick(s, 4, 3) = 0, FALSE)
+       \* a character that must be escaped inside its quotes, directly followed by a digit
+       [] k \in 7..8 -> Str(<<<<39, 34, 92, 45, 10>>[1 + Pick(s, 5, 5)], <<55, 52, 48>>[1 + Pick(s, 6, 3)]>> \o
+                            (IF Pick(s, 7, 2) = 0 THEN <<ch(1)>> ELSE <<>>), FALSE)
+GenLex(s, cx) ==
+  LET nalt == 1 + Pick(s, 60, 3)
+      seq(i) == LET t == H(s, 61 + i)
+                    x == LexAtom(H(t, 1), cx) y == LexAtom(H(t, 2), cx)
+                    xs == IF Pick(t, 3, 2) = 0 THEN <<x>> ELSE <<x, y>>
+                IN IF Pick(t, 4, 3) = 0 THEN Cap(SeqE(xs)) ELSE SeqE(xs)
+      body == AltE([i \in 1..nalt |-> seq(i)])
+  IN NumberActions([rules |-> <<[name |-> "A", body |-> IF Pick(s, 70, 2) = 0 THEN SeqE(<<body, Not(Dot)>>) ELSE body]>>])
+LexStyleOf(n) == <<1, 2, 3, 4, 14, 14, 5, 12>>[1 + (n % 8)]
 
 (* ---------- the "memo" shape: rules re-entered at the same offset after backtracking -------- *)
 \* leaf rules L1..L3 consume one character (and may carry a capture / action); X, Y, Z are built
@@ -399,6 +467,13 @@ StringsOrdered(alpha, n) ==
 DeepGrammar1 == NumberActions([rules |-> <<[name |-> "A", body |-> AltE(<<SeqE(<<Ref("B"), Ref("A")>>), Ref("B")>>)],
                                            [name |-> "B", body |-> SeqE(<<Cap(Rng(97, 98)), Act(0)>>)]>>])
 DeepGrammar2 == NumberActions([rules |-> <<[name |-> "A", body |-> AltE(<<SeqE(<<Chr(40), Ref("A"), Chr(41)>>), Cap(Chr(233))>>)]>>])
+\* three fixed grammars of the switch family: each separates one variant of Optimizer.tla that transcribes a defect
+\* of the pinned tree from the repaired rules (MC_Optimizer_pinned.cfg, MC_Optimizer_onepass.cfg), whatever the seed
+SwitchPinned1 == NumberActions([rules |-> <<[name |-> "A", body |-> AltE(<<SeqE(<<And(Chr(97)), Chr(98)>>), Chr(99), SeqE(<<Chr(100), Act(0)>>)>>)]>>])
+SwitchPinned2 == NumberActions([rules |-> <<[name |-> "A", body |-> AltE(<<Chr(97), Cap(Chr(98)), Opt(Chr(99)), Chr(100)>>)]>>])
+SwitchPinned3 == NumberActions([rules |-> <<[name |-> "A", body |-> AltE(<<SeqE(<<Chr(97), Ref("X")>>), Chr(98)>>)],
+                                            [name |-> "X", body |-> SeqE(<<Ref("A"), Chr(99), Ref("Z")>>)],
+                                            [name |-> "Z", body |-> AltE(<<Rng(100, 101), SeqE(<<Ref("X"), Chr(97)>>), Chr(102)>>)]>>])
 \* a fixed scenario that reproduces known finding F12-2 (more than 65535 tokens under uint16) in every run of the reuse family
 F122Grammar == NumberActions([rules |-> <<[name |-> "A", body |-> SeqE(<<Star(AltE(<<Ref("B"), Dot>>)), Not(Dot)>>)],
                                           [name |-> "B", body |-> Ref("C")],
@@ -447,6 +522,10 @@ Fam ==
          [cx |-> [alpha |-> <<97, 98, 10, 233, 27721>>, acts |-> TRUE, caps |-> TRUE, preds |-> FALSE, sugar |-> FALSE, capnull |-> FALSE, maxrules |-> 3, self |-> 1, n |-> 1],
           depth |-> 3, optsets |-> <<"">>, exhaust |-> 2, alphaIn |-> <<97, 98, 10, 233, 27721>>, extraAlpha |-> <<97, 98, 10, 233, 27721, 128512>>, nextra |-> 30,
           collect |-> [toks |-> TRUE, exec |-> TRUE, ast |-> TRUE, msg |-> TRUE], entries |-> FALSE, memoOff |-> FALSE, act |-> "full"]
+    [] FAMILY = "lex" ->    \* C01 C02 C03: the spelling of literals and classes, end to end
+         [cx |-> [alpha |-> LexAlpha, acts |-> FALSE, caps |-> TRUE, preds |-> FALSE, sugar |-> TRUE, capnull |-> FALSE, maxrules |-> 1, self |-> 1, n |-> 1],
+          depth |-> 2, optsets |-> <<"", "is">>, exhaust |-> 1, alphaIn |-> LexAlpha, extraAlpha |-> LexAlpha, nextra |-> 30,
+          collect |-> [toks |-> TRUE, exec |-> FALSE, ast |-> FALSE, msg |-> FALSE], entries |-> FALSE, memoOff |-> FALSE, act |-> "full"]
     [] FAMILY = "switch" -> \* C02 C08: choices of >= 3 consuming alternatives (the shape -switch rewrites)
          [cx |-> [alpha |-> <<97, 98, 99, 100, 101, 102>>, acts |-> TRUE, caps |-> TRUE, preds |-> FALSE, sugar |-> TRUE, capnull |-> FALSE, maxrules |-> 3, self |-> 1, n |-> 1],
           depth |-> 0, optsets |-> Plain4, exhaust |-> 2, alphaIn |-> <<97, 98, 99, 100, 101, 102>>, extraAlpha |-> <<97, 98, 99, 100, 101, 102, 65, 122>>, nextra |-> 40,
@@ -519,16 +598,21 @@ Plan(G) ==
   (IF Fam.entries THEN [k \in 1..(Len(G.rules) - 1) |-> PlanEntry(G.rules[k + 1].name, TRUE, 0, "uint32", TRUE)] ELSE <<>>)
 
 Candidate(n) == IF FAMILY = "reuse" /\ n = 1 THEN F122Grammar
+                ELSE IF FAMILY = "switch" /\ n = 1 THEN SwitchPinned1
+                ELSE IF FAMILY = "switch" /\ n = 2 THEN SwitchPinned2
+                ELSE IF FAMILY = "switch" /\ n = 3 THEN SwitchPinned3
                 ELSE IF FAMILY = "act" /\ n = 1 THEN DeepGrammar1
                 ELSE IF FAMILY = "act" /\ n = 2 THEN DeepGrammar2
                 ELSE IF FAMILY = "switch" THEN GenSwitch(H(H(SEED, n), n \div 1499), Fam.cx)
+                ELSE IF FAMILY = "lex" THEN GenLex(H(H(SEED, n), n \div 1499), Fam.cx)
                 ELSE IF FAMILY = "memo" THEN GenMemo(H(H(SEED, n), n \div 1499), Fam.cx)
                 ELSE IF FAMILY = "diag" THEN GenDiag(H(H(SEED, n), n \div 1499), Fam.cx)
                 ELSE GenGrammar(H(H(SEED, n), n \div 1499), Fam.cx, Fam.depth)
 
 Scenario(n) ==
   LET G == Candidate(n) IN
-  [id |-> n, family |-> FAMILY, seed |-> SEED, grammar |-> G, text |-> Render(G, Style(G)),
+  [id |-> n, family |-> FAMILY, seed |-> SEED, grammar |-> G,
+   text |-> IF FAMILY = "lex" THEN Render(G, SyntaxStyle(LexStyleOf(n))) ELSE Render(G, Style(G)),
    optsets |-> Fam.optsets,
    inputs |-> IF FAMILY = "diag" THEN <<>> ELSE IF FAMILY = "bytes" THEN ByteInputs(H(SEED, n + 17)) ELSE Inputs(H(SEED, n + 17), G),
    plan |-> IF FAMILY = "diag" THEN <<>> ELSE Plan(G),
